@@ -10,7 +10,13 @@
 Require Import Base Sched.
 
 (* ---- static description of a graph ---- *)
-Record inspec := mkIn { i_src : nat; i_active : bool; i_req : bool }.
+(* One entry per bound TS<int> endpoint of the input bundle.  A plain slot is one entry.  A slot of type
+   TSL<TS<int>,2> (non-peered list, its two elements bound to two producers) is TWO consecutive entries that
+   name each other's producer in [i_mate]; they share activity, requiredness and [i_all].
+   i_req : the slot is required valid (listed in schema.valid_inputs, or every slot by default) -
+           a list slot is valid as soon as ONE element holds a value;
+   i_all : the slot is listed in schema.all_valid_inputs - EVERY element must hold a value. *)
+Record inspec := mkIn { i_src : nat; i_active : bool; i_req : bool; i_mate : option nat; i_all : bool }.
 
 Record ncfg := mkCfg {
   c_sched : bool;           (* schema.uses_scheduler *)
@@ -92,9 +98,19 @@ Definition read_input (g : gst) (s : inspec) : inview :=
 
 Definition read_inputs (c : ncfg) (g : gst) : list inview := map (read_input g) (c_ins c).
 
-(* node.cpp ready_to_evaluate *)
+(* node.cpp ready_to_evaluate: the valid selector (or every slot), then the all-valid selector *)
+Definition has_val (g : gst) (p : nat) : bool :=
+  match n_val (node_at p g) with Some _ => true | None => false end.
+
+Definition slot_valid (g : gst) (s : inspec) : bool :=
+  match i_mate s with
+  | None => v_valid (read_input g s)
+  | Some m => v_valid (read_input g s) || has_val g m
+  end.
+
 Definition ready (c : ncfg) (g : gst) : bool :=
-  forallb (fun s => if (c_vmode c =? 0) || i_req s then v_valid (read_input g s) else true) (c_ins c).
+  forallb (fun s => (if (c_vmode c =? 0) || i_req s then slot_valid g s else true) &&
+                    (if i_all s then v_valid (read_input g s) else true)) (c_ins c).
 
 (* ---- output write + notification of subscribed (active) inputs ---- *)
 Fixpoint notify_from (cfgs : list ncfg) (j : nat) (src : nat) (g : gst) : gst :=
@@ -123,6 +139,9 @@ Definition set_sch (s : sched) (n : nst) : nst := mkN (n_started n) s (n_runs n)
 Definition set_act (a : list bool) (n : nst) : nst := mkN (n_started n) (n_sch n) (n_runs n) (n_val n) (n_lmt n) (n_evals n) a.
 Definition set_out (v now : Z) (n : nst) : nst := mkN (n_started n) (n_sch n) (n_runs n) (Some v) now (n_evals n) (n_act n).
 Definition set_inv (now : Z) (n : nst) : nst := mkN (n_started n) (n_sch n) (n_runs n) None now (n_evals n) (n_act n).
+
+Definition is_list_entry (c : ncfg) (sl : Z) : bool :=
+  match i_mate (nth (Z.to_nat sl) (c_ins c) (mkIn 0 false false None false)) with Some _ => true | None => false end.
 
 Definition do_op (cfgs : list ncfg) (i : nat) (started : bool) (opi : Z) (o : op) (g : gst) : gst :=
   if negb (g_err g =? 0) then g else
@@ -153,8 +172,12 @@ Definition do_op (cfgs : list ncfg) (i : nat) (started : bool) (opi : Z) (o : op
       else g
   | ORaw d => schedule_node i (now + d) g
   | OThrow => set_err 2 g
-  | OMakePassive sl => upd_node i (set_act (set_nth (Z.to_nat sl) false (n_act (node_at i g)))) g
-  | OMakeActive sl => upd_node i (set_act (set_nth (Z.to_nat sl) true (n_act (node_at i g)))) g
+  | OMakePassive sl =>
+      if is_list_entry c sl then g   (* the harness leaves the activity of list slots alone *)
+      else upd_node i (set_act (set_nth (Z.to_nat sl) false (n_act (node_at i g)))) g
+  | OMakeActive sl =>
+      if is_list_entry c sl then g
+      else upd_node i (set_act (set_nth (Z.to_nat sl) true (n_act (node_at i g)))) g
   | OInvalidate =>
       (* ts_data/base_view.cpp TSDataMutationView::invalidate: nothing without a current value; otherwise
          the observers are notified at the mutation time and the value is withdrawn *)
@@ -275,13 +298,20 @@ Definition run_sim (cfgs : list ncfg) (beh : behaviour) (start end_ : Z) (fuel :
 
 (* =====================  wire format  ===================== *)
 
-Fixpoint parse_ins (n : nat) (l : list Z) : list inspec :=
+(* c = required + 2 * role + 8 * all_valid; role 1 / 2 = first / second element of a TSL<TS<int>,2> slot *)
+Definition role_of (c : Z) : Z := (c / 2) mod 4.
+Definition mate_of (c : Z) (prev : Z) (rest : list Z) : option nat :=
+  if role_of c =? 1 then match rest with a' :: _ => Some (Z.to_nat a') | [] => None end
+  else if role_of c =? 2 then Some (Z.to_nat prev) else None.
+
+Fixpoint parse_ins_from (prev : Z) (n : nat) (l : list Z) : list inspec :=
   match n, l with
-  (* b: 0 passive by declaration, 1 active, 2 active by declaration + wiring-time passive marker
-        (NodeBuilder::with_passive_inputs), 3 passive + marker: only 1 is subscribed at start *)
-  | S k, a :: b :: c :: r => mkIn (Z.to_nat a) (b =? 1) (z2b c) :: parse_ins k r
+  | S k, a :: b :: c :: r =>
+      mkIn (Z.to_nat a) (b =? 1) (z2b (c mod 2)) (mate_of c prev r) (z2b ((c / 8) mod 2)) :: parse_ins_from a k r
   | _, _ => []
   end.
+
+Definition parse_ins (n : nat) (l : list Z) : list inspec := parse_ins_from 0 n l.
 
 Definition parse_node (l : line) : option ncfg :=
   match l with
